@@ -95,11 +95,14 @@ impl Envelope {
 
 /// Engine-specific behaviour at instruction boundaries.
 pub trait Hooks {
-    /// Before the instruction; return false to skip it.
-    fn pre(&mut self, _core: &mut SimCore, _idx: usize, _st: &mut PushState) -> bool {
+    /// Before the instruction `name` (event number `ev`); return false to skip
+    /// it. The simulator core is not borrowed while a hook runs: use
+    /// `simenv::with` / `simenv::fault` to reach it, and feel free to step other
+    /// interpreters (their shims may draw entropy or read the clock).
+    fn pre(&mut self, _ev: u64, _name: &str, _st: &mut PushState) -> bool {
         true
     }
-    fn post(&mut self, _core: &mut SimCore, _idx: usize, _st: &mut PushState) {}
+    fn post(&mut self, _ev: u64, _name: &str, _st: &mut PushState) {}
     fn as_any(&mut self) -> &mut dyn std::any::Any;
 }
 
@@ -311,7 +314,7 @@ fn size_operand(name: &str, st: &PushState) -> Option<(i64, bool)> {
     // returns (operand, is_neighbor)
     match name {
         "BOOLVECTOR.ONES" | "BOOLVECTOR.ZEROS" | "INTVECTOR.ONES" | "INTVECTOR.ZEROS"
-        | "FLOATVECTOR.ONES" | "FLOATVECTOR.ZEROS" | "BOOLVECTOR.RAND" | "BOOLVECTOR.ROTATE"
+        | "FLOATVECTOR.ONES" | "FLOATVECTOR.ZEROS" | "BOOLVECTOR.RAND"
         | "INTVECTOR.RAND" | "FLOATVECTOR.RAND" | "FLOATVECTOR.SINE" => {
             st.int_stack.get(0).map(|v| (*v as i64, false))
         }
@@ -350,6 +353,11 @@ fn trace(name: &str, ev: u64) {
 fn pre(idx: usize, st: &mut PushState) -> bool {
     let (mut hooks, mut go) = with(|s| {
         s.cur_instr = Some(idx);
+        if s.counts.len() <= idx {
+            // begin() was given no registry: still meter and envelope by name
+            s.names = wrapped_names();
+            s.counts = vec![0; s.names.len()];
+        }
         s.counts[idx] += 1;
         trace(&s.names[idx], s.events);
         // clock: cost of this event, then scheduled stalls
@@ -391,24 +399,23 @@ fn pre(idx: usize, st: &mut PushState) -> bool {
         (s.hooks.take(), go)
     });
     if let Some(h) = hooks.as_mut() {
-        let ok = SIM.with(|s| {
-            // the hook gets the core, but must not call into pushr shims
-            let mut core = s.borrow_mut();
-            h.pre(&mut core, idx, st)
-        });
+        let (ev, name) = with(|s| (s.events - 1, s.names[idx].clone()));
+        let ok = h.pre(ev, &name, st);
         go = go && ok;
     }
     with(|s| s.hooks = hooks);
     go
 }
 
+pub fn fault(kind: &'static str) {
+    with(|s| s.fault(kind));
+}
+
 fn post(idx: usize, st: &mut PushState) {
     let mut hooks = with(|s| s.hooks.take());
     if let Some(h) = hooks.as_mut() {
-        SIM.with(|s| {
-            let mut core = s.borrow_mut();
-            h.post(&mut core, idx, st)
-        });
+        let (ev, name) = with(|s| (s.events - 1, s.names[idx].clone()));
+        h.post(ev, &name, st);
     }
     with(|s| {
         s.hooks = hooks;
@@ -452,4 +459,21 @@ pub fn wrapped_set() -> (InstructionSet, Vec<String>) {
     iset.load();
     let names = wrap_all(&mut iset);
     (iset, names)
+}
+
+thread_local! {
+    static NAMES: RefCell<Vec<String>> = RefCell::new(vec![]);
+}
+
+fn wrapped_names() -> Vec<String> {
+    NAMES.with(|n| {
+        if n.borrow().is_empty() {
+            let mut iset = InstructionSet::new();
+            iset.load();
+            let mut v = iset.cache().list;
+            v.sort();
+            *n.borrow_mut() = v;
+        }
+        n.borrow().clone()
+    })
 }
